@@ -1,6 +1,6 @@
 """C08 -- Rock Ridge fidelity for an independent SUSP/RRIP reader.  DESIGN.md section 8.8."""
 from harness import common, nsoracles, sysimg, sysprops
-from harness.props import celeaf, namesleaf
+from harness.props import celeaf, namesleaf, nlinkleaf
 
 MODULE = 'C08'
 RECIPES = ['ce_gap_plus', 'ce_gap_exact', 'ce_gap_minus', 'deep_tree', 'long_symlinks', 'fat_dir_churn']
@@ -15,6 +15,7 @@ def run(ctx):
     common.setup_impl_path()
     namesleaf.leaf_correspondence(ctx, 'C08', symlinks=True, names=True)
     celeaf.leaf_correspondence(ctx)
+    nlinkleaf.correspondence(ctx)
     quick = ctx.tier == 'quick'
     sysprops.run_oracle(ctx, 'C08', sysprops.histories(ctx, 120 if quick else 2500, RECIPES,
                                                        dict(allow_refusals=False, long_rr=0.3, max_depth=6),
@@ -26,7 +27,8 @@ def run(ctx):
                        'with XA), symlink targets crossing every SL record/component boundary; an independent SUSP/RRIP reader must '
                        'recover names, types, PX mode types, link counts, targets and the logical tree; entry lengths, CE/CL/PL pointers checked')
     ctx.cov['trusted_base'] = ['Coq 8.16.1 kernel, vm_compute', 'Model/LongNames.v, Model/CeAlloc.v (hand models) tied by leaf runs against '
-                               'rockridge.py / headervd.py', 'harness/reader.py']
+                               'rockridge.py / headervd.py', 'Model/Nlink.v (hand model of the directory link count bookkeeping; depth <= 7, no relocation) '
+                               'tied by reading the PX counts of the record objects before and after the recomputation', 'harness/reader.py']
     ctx.assumptions = ['link counts on images with a relocated directory follow the physical tree (RR_MOVED counted) and are not compared']
 
 
